@@ -4,8 +4,9 @@
    from /repo/std/*.sam on every run (coq/generated/Std*.v); `res` is Ok | Panic | OutOfFuel. *)
 From Coq Require Import List ZArith Lia Bool.
 Import ListNotations.
-From SVG Require Import StdPrelude StdTuples StdOption StdList StdMap.
-From SV Require Import C18.Spec C18.Conv C18.MapBase C18.MapOps1.
+From SVG Require Import StdPrelude StdTuples StdOption StdList StdMap StdSet.
+From SV Require Import C18.Spec C18.Conv C18.MapBase C18.MapOps1 C18.MapOps2 C18.MapOps3 C18.MapOps4 C18.MapOps5 C18.MapOps6
+  C18.SetBase C18.SetOps1 C18.SetOps2 C18.SetOps3.
 Open Scope Z_scope.
 
 (* the oracle for `==` on non-primitive values may say `true` only on equal values *)
@@ -43,6 +44,364 @@ Theorem C18_map_insert : forall (K V : Type) (cmp : K -> K -> Z), cmp_order cmp 
              /\ height t <= height t' <= height t + 1.
 Proof. exact (@insert_ok). Qed.
 
+(* ---- internal building blocks (private members), all with "never Panic" and explicit fuel *)
+Theorem C18_map_addMinBinding : forall (K V : Type) (cmp : K -> K -> Z) (phys_eq : forall A : Type, A -> A -> bool)
+  (nk : K) (nv : V) (t : Map_t K V) (fuel : nat), avl t -> height t + 4 <= Z.of_nat fuel ->
+  exists t', Map_addMinBinding phys_eq cmp fuel nk nv t = Ok t' /\ avl t'
+    /\ bindings t' = (nk, nv) :: bindings t /\ height t <= height t' <= height t + 1 /\ 1 <= height t'.
+Proof. exact (@addMinBinding_ok). Qed.
+
+Theorem C18_map_addMaxBinding : forall (K V : Type) (cmp : K -> K -> Z) (phys_eq : forall A : Type, A -> A -> bool)
+  (nk : K) (nv : V) (t : Map_t K V) (fuel : nat), avl t -> height t + 4 <= Z.of_nat fuel ->
+  exists t', Map_addMaxBinding phys_eq cmp fuel nk nv t = Ok t' /\ avl t'
+    /\ bindings t' = bindings t ++ [(nk, nv)] /\ height t <= height t' <= height t + 1 /\ 1 <= height t'.
+Proof. exact (@addMaxBinding_ok). Qed.
+
+Theorem C18_map_addMinNode : forall (K V : Type) (cmp : K -> K -> Z) (phys_eq : forall A : Type, A -> A -> bool)
+  (nk : K) (nv : V) (t : Map_t K V) (fuel : nat), avl t -> height t + 4 <= Z.of_nat fuel ->
+  exists t', Map_addMinNode phys_eq cmp fuel (Map_Leaf nk nv) t = Ok t' /\ avl t'
+    /\ bindings t' = (nk, nv) :: bindings t /\ height t <= height t' <= height t + 1 /\ 1 <= height t'.
+Proof. exact (@addMinNode_ok). Qed.
+
+Theorem C18_map_addMaxNode : forall (K V : Type) (cmp : K -> K -> Z) (phys_eq : forall A : Type, A -> A -> bool)
+  (nk : K) (nv : V) (t : Map_t K V) (fuel : nat), avl t -> height t + 4 <= Z.of_nat fuel ->
+  exists t', Map_addMaxNode phys_eq cmp fuel (Map_Leaf nk nv) t = Ok t' /\ avl t'
+    /\ bindings t' = bindings t ++ [(nk, nv)] /\ height t <= height t' <= height t + 1 /\ 1 <= height t'.
+Proof. exact (@addMaxNode_ok). Qed.
+
+(* join: any two AVL trees, no assumption on their relative heights *)
+Theorem C18_map_join : forall (K V : Type) (cmp : K -> K -> Z) (phys_eq : forall A : Type, A -> A -> bool)
+  (k : K) (v : V) (l r : Map_t K V) (fuel : nat), avl l -> avl r -> height l + height r + 5 <= Z.of_nat fuel ->
+  exists t, Map_join phys_eq cmp fuel l k v r = Ok t /\ avl t
+    /\ bindings t = bindings l ++ (k, v) :: bindings r
+    /\ Z.max (height l) (height r) <= height t <= Z.max (height l) (height r) + 1 /\ 1 <= height t.
+Proof. exact (@join_ok). Qed.
+
+Theorem C18_map_removeMinBinding : forall (K V : Type) (cmp : K -> K -> Z) (phys_eq : forall A : Type, A -> A -> bool)
+  (t : Map_t K V) (fuel : nat) h k v l r, t = Map_Node h k v l r -> avl t -> height t + 4 <= Z.of_nat fuel ->
+  exists t' p, Map_removeMinBindingFromNodeUnsafe phys_eq cmp fuel t = Ok t' /\ avl t'
+    /\ bindings t = p :: bindings t' /\ height t - 1 <= height t' <= height t.
+Proof. exact (@removeMin_ok). Qed.
+
+Theorem C18_map_minBinding : forall (K V : Type) (cmp : K -> K -> Z) (phys_eq : forall A : Type, A -> A -> bool)
+  (t : Map_t K V) (fuel : nat) h k v l r, t = Map_Node h k v l r -> avl t -> height t + 2 <= Z.of_nat fuel ->
+  exists mk mv rest, bindings t = (mk, mv) :: rest
+    /\ Map_minBindingFromNodeUnsafe phys_eq cmp fuel t = Ok (Pair_init mk mv).
+Proof. exact (@minBinding_ok). Qed.
+
+Theorem C18_map_concat : forall (K V : Type) (cmp : K -> K -> Z) (phys_eq : forall A : Type, A -> A -> bool)
+  (t1 t2 : Map_t K V) (fuel : nat), avl t1 -> avl t2 -> height t1 + height t2 + 6 <= Z.of_nat fuel ->
+  exists t, Map_concat phys_eq cmp fuel t1 t2 = Ok t /\ avl t
+    /\ bindings t = bindings t1 ++ bindings t2 /\ height t <= Z.max (height t1) (height t2) + 1.
+Proof. exact (@concat_ok). Qed.
+
+Theorem C18_map_internalMerge : forall (K V : Type) (cmp : K -> K -> Z) (phys_eq : forall A : Type, A -> A -> bool)
+  (t1 t2 : Map_t K V) (fuel : nat), avl t1 -> avl t2 -> -2 <= height t1 - height t2 <= 2 ->
+  Z.max (height t1) (height t2) + 6 <= Z.of_nat fuel ->
+  exists t, Map_internalMerge phys_eq cmp fuel t1 t2 = Ok t /\ avl t
+    /\ bindings t = bindings t1 ++ bindings t2
+    /\ Z.max (height t1) (height t2) <= height t <= Z.max (height t1) (height t2) + 1.
+Proof. exact (@internalMerge_ok). Qed.
+
+Theorem C18_map_split : forall (K V : Type) (cmp : K -> K -> Z), cmp_order cmp ->
+  forall (phys_eq : forall A : Type, A -> A -> bool) (key : K) (t : Map_t K V) (fuel : nat),
+  avl t -> bst cmp t -> 2 * height t + 4 <= Z.of_nat fuel ->
+  exists l o r, Map_split phys_eq cmp fuel t key = Ok (Triple_init l o r)
+    /\ avl l /\ avl r /\ height l <= height t /\ height r <= height t
+    /\ bindings l = below cmp key (bindings t) /\ bindings r = above cmp key (bindings t)
+    /\ o = of_option (find cmp key (bindings t)).
+Proof. exact (@split_ok). Qed.
+
+(* ---- public modifiers *)
+Theorem C18_map_remove : forall (K V : Type) (cmp : K -> K -> Z), cmp_order cmp ->
+  forall (phys_eq : forall A : Type, A -> A -> bool), oracle_sound phys_eq ->
+  forall (key : K) (t : Map_t K V) (fuel : nat),
+  avl t -> bst cmp t -> height t + 7 <= Z.of_nat fuel ->
+  exists t', Map_remove phys_eq cmp fuel t key = Ok t' /\ avl t' /\ bindings t' = del cmp key (bindings t)
+             /\ height t - 1 <= height t' <= height t.
+Proof. exact (@remove_ok). Qed.
+
+Theorem C18_map_update : forall (K V : Type) (cmp : K -> K -> Z), cmp_order cmp ->
+  forall (phys_eq : forall A : Type, A -> A -> bool), oracle_sound phys_eq ->
+  forall (key : K) (f : Option_t V -> res (Option_t V)) (g : option V -> option V),
+  (forall o, f o = Ok (of_option (g (to_option o)))) ->
+  forall (t : Map_t K V) (fuel : nat), avl t -> bst cmp t -> height t + 8 <= Z.of_nat fuel ->
+  exists t', Map_update phys_eq cmp fuel t key f = Ok t' /\ avl t'
+    /\ bindings t' = upd cmp key g (bindings t) /\ height t - 1 <= height t' <= height t + 1.
+Proof. exact (@update_ok). Qed.
+
+Theorem C18_map_filter : forall (K V : Type) (cmp : K -> K -> Z) (phys_eq : forall A : Type, A -> A -> bool),
+  oracle_sound phys_eq ->
+  forall (f : K -> V -> res bool) (g : K -> V -> bool), (forall k v, f k v = Ok (g k v)) ->
+  forall (t : Map_t K V) (fuel : nat), avl t -> 2 * height t + 5 <= Z.of_nat fuel ->
+  exists t', Map_filter phys_eq cmp fuel t f = Ok t' /\ avl t'
+    /\ bindings t' = afilter g (bindings t) /\ height t' <= height t.
+Proof. exact (@filter_ok). Qed.
+
+Theorem C18_map_partition : forall (K V : Type) (cmp : K -> K -> Z) (phys_eq : forall A : Type, A -> A -> bool)
+  (f : K -> V -> res bool) (g : K -> V -> bool), (forall k v, f k v = Ok (g k v)) ->
+  forall (t : Map_t K V) (fuel : nat), avl t -> 2 * height t + 5 <= Z.of_nat fuel ->
+  exists tt tf, Map_partition phys_eq cmp fuel t f = Ok (Pair_init tt tf) /\ avl tt /\ avl tf
+    /\ bindings tt = afilter g (bindings t) /\ bindings tf = afilter (fun k v => negb (g k v)) (bindings t)
+    /\ height tt <= height t /\ height tf <= height t.
+Proof. exact (@partition_ok). Qed.
+
+(* ---- observers *)
+Theorem C18_map_fold : forall (K V : Type) (cmp : K -> K -> Z) (phys_eq : forall A : Type, A -> A -> bool)
+  (A : Type) (f : A -> K -> V -> res A) (g : A -> K -> V -> A), (forall a k v, f a k v = Ok (g a k v)) ->
+  forall (t : Map_t K V) (acc : A) (fuel : nat), avl t -> height t + 1 <= Z.of_nat fuel ->
+  Map_fold phys_eq cmp fuel t acc f = Ok (afold g (bindings t) acc).
+Proof. exact (@fold_ok). Qed.
+
+Theorem C18_map_iter : forall (K V : Type) (cmp : K -> K -> Z) (phys_eq : forall A : Type, A -> A -> bool)
+  (f : K -> V -> res unit), (forall k v, f k v = Ok tt) ->
+  forall (t : Map_t K V) (fuel : nat), avl t -> height t + 1 <= Z.of_nat fuel -> Map_iter phys_eq cmp fuel t f = Ok tt.
+Proof. exact (@iter_ok). Qed.
+
+Theorem C18_map_forAll : forall (K V : Type) (cmp : K -> K -> Z) (phys_eq : forall A : Type, A -> A -> bool)
+  (f : K -> V -> res bool) (g : K -> V -> bool), (forall k v, f k v = Ok (g k v)) ->
+  forall (t : Map_t K V) (fuel : nat), avl t -> height t + 1 <= Z.of_nat fuel ->
+  Map_forAll phys_eq cmp fuel t f = Ok (forallb (pred_of g) (bindings t)).
+Proof. exact (@forAll_ok). Qed.
+
+Theorem C18_map_exists : forall (K V : Type) (cmp : K -> K -> Z) (phys_eq : forall A : Type, A -> A -> bool)
+  (f : K -> V -> res bool) (g : K -> V -> bool), (forall k v, f k v = Ok (g k v)) ->
+  forall (t : Map_t K V) (fuel : nat), avl t -> height t + 1 <= Z.of_nat fuel ->
+  Map_exists phys_eq cmp fuel t f = Ok (existsb (pred_of g) (bindings t)).
+Proof. exact (@exists_ok). Qed.
+
+Theorem C18_map_size : forall (K V : Type) (cmp : K -> K -> Z) (phys_eq : forall A : Type, A -> A -> bool)
+  (t : Map_t K V) (fuel : nat), avl t -> height t + 1 <= Z.of_nat fuel ->
+  Map_size phys_eq cmp fuel t = Ok (Z.of_nat (length (bindings t))).
+Proof. exact (@size_ok). Qed.
+
+Theorem C18_map_isEmpty : forall (K V : Type) (cmp : K -> K -> Z) (phys_eq : forall A : Type, A -> A -> bool)
+  (fuel : nat) (t : Map_t K V), (1 <= fuel)%nat ->
+  Map_isEmpty phys_eq cmp fuel t = Ok (match t with Map_Empty => true | _ => false end).
+Proof. exact (@isEmpty_ok). Qed.
+
+Theorem C18_map_entries : forall (K V : Type) (cmp : K -> K -> Z) (phys_eq : forall A : Type, A -> A -> bool)
+  (t : Map_t K V) (fuel : nat), avl t -> height t + 2 <= Z.of_nat fuel ->
+  Map_entries phys_eq cmp fuel t = Ok (of_list (map of_pair (bindings t))).
+Proof. exact (@entries_ok). Qed.
+
+Theorem C18_map_keys : forall (K V : Type) (cmp : K -> K -> Z) (phys_eq : forall A : Type, A -> A -> bool)
+  (t : Map_t K V) (fuel : nat), avl t -> height t + 2 <= Z.of_nat fuel ->
+  Map_keys phys_eq cmp fuel t = Ok (of_list (map fst (bindings t))).
+Proof. exact (@keys_ok). Qed.
+
+Theorem C18_map_min : forall (K V : Type) (cmp : K -> K -> Z) (phys_eq : forall A : Type, A -> A -> bool)
+  (t : Map_t K V) (fuel : nat), avl t -> height t + 2 <= Z.of_nat fuel ->
+  Map_min phys_eq cmp fuel t = Ok (of_option (option_map of_pair (hd_error (bindings t)))).
+Proof. exact (@min_ok). Qed.
+
+Theorem C18_map_max : forall (K V : Type) (cmp : K -> K -> Z) (phys_eq : forall A : Type, A -> A -> bool)
+  (t : Map_t K V) (fuel : nat), avl t -> height t + 2 <= Z.of_nat fuel ->
+  Map_max phys_eq cmp fuel t = Ok (of_option (option_map of_pair (last_opt (bindings t)))).
+Proof. exact (@max_ok). Qed.
+
+Theorem C18_map_minKey : forall (K V : Type) (cmp : K -> K -> Z) (phys_eq : forall A : Type, A -> A -> bool)
+  (t : Map_t K V) (fuel : nat), avl t -> height t + 3 <= Z.of_nat fuel ->
+  Map_minKey phys_eq cmp fuel t = Ok (of_option (option_map fst (hd_error (bindings t)))).
+Proof. exact (@minKey_ok). Qed.
+
+Theorem C18_map_maxKey : forall (K V : Type) (cmp : K -> K -> Z) (phys_eq : forall A : Type, A -> A -> bool)
+  (t : Map_t K V) (fuel : nat), avl t -> height t + 3 <= Z.of_nat fuel ->
+  Map_maxKey phys_eq cmp fuel t = Ok (of_option (option_map fst (last_opt (bindings t)))).
+Proof. exact (@maxKey_ok). Qed.
+
+Theorem C18_map_map : forall (K V V2 : Type) (cmp : K -> K -> Z) (phys_eq : forall A : Type, A -> A -> bool)
+  (f : K -> V -> res V2) (g : K -> V -> V2), (forall k v, f k v = Ok (g k v)) ->
+  forall (t : Map_t K V) (fuel : nat), avl t -> height t + 1 <= Z.of_nat fuel ->
+  exists t', Map_map phys_eq cmp fuel t f = Ok t' /\ avl t' /\ height t' = height t
+    /\ bindings t' = map (fun p => (fst p, g (fst p) (snd p))) (bindings t).
+Proof. exact (@map_ok). Qed.
+
+(* ---- union: the lookup function of the result is the combination of the lookups (and the result is a
+   search tree, so by C18_spec_find_ext its bindings are determined) *)
+Theorem C18_map_customizedUnion : forall (K V : Type) (cmp : K -> K -> Z), cmp_order cmp ->
+  forall (phys_eq : forall A : Type, A -> A -> bool), oracle_sound phys_eq ->
+  forall (f : K -> V -> V -> res (Option_t V)) (g : K -> V -> V -> option V),
+  (forall k x y, f k x y = Ok (of_option (g k x y))) ->
+  forall (fuel : nat) (t1 t2 : Map_t K V), avl t1 -> bst cmp t1 -> avl t2 -> bst cmp t2 ->
+  2 * (height t1 + height t2) + 10 <= Z.of_nat fuel ->
+  exists t, Map_customizedUnion phys_eq cmp fuel t1 t2 f = Ok t /\ avl t /\ bst cmp t
+    /\ pointwise cmp (cu_comb g) (bindings t1) (bindings t2) (bindings t)
+    /\ height t <= height t1 + height t2.
+Proof. exact (@customizedUnion_ok). Qed.
+
+Theorem C18_map_union : forall (K V : Type) (cmp : K -> K -> Z), cmp_order cmp ->
+  forall (phys_eq : forall A : Type, A -> A -> bool), oracle_sound phys_eq ->
+  forall (fuel : nat) (t1 t2 : Map_t K V), avl t1 -> bst cmp t1 -> avl t2 -> bst cmp t2 ->
+  2 * (height t1 + height t2) + 11 <= Z.of_nat fuel ->
+  exists t, Map_union phys_eq cmp fuel t1 t2 = Ok t /\ avl t /\ bst cmp t
+    /\ pointwise cmp left_comb (bindings t1) (bindings t2) (bindings t)
+    /\ height t <= height t1 + height t2.
+Proof. exact (@union_ok). Qed.
+
+(* =====================================================================  Set<V>
+   A set is a finite map to unit: sbindings t : list (K * unit), elements t = map fst (sbindings t);
+   savl / sbst are the AVL and search-tree invariants. *)
+Theorem C18_set_balanced : forall (K : Type) (cmp : K -> K -> Z) (phys_eq : forall A : Type, A -> A -> bool)
+  (fuel : nat) (l : Set_t K) (v : K) (r : Set_t K),
+  savl l -> savl r -> -3 <= sheight l - sheight r <= 3 -> (3 <= fuel)%nat ->
+  exists t, Set_balanced phys_eq cmp fuel l v r = Ok t /\ savl t
+    /\ sbindings t = sbindings l ++ (v, tt) :: sbindings r
+    /\ (Z.max (sheight l) (sheight r) <= sheight t <= Z.max (sheight l) (sheight r) + 1)
+    /\ (-2 <= sheight l - sheight r <= 2 -> sheight t = Z.max (sheight l) (sheight r) + 1).
+Proof. exact (@sbalanced_ok). Qed.
+
+Theorem C18_set_contains : forall (K : Type) (cmp : K -> K -> Z), cmp_order cmp ->
+  forall (phys_eq : forall A : Type, A -> A -> bool) (t : Set_t K) (x : K) (fuel : nat),
+  savl t -> sbst cmp t -> sheight t + 1 <= Z.of_nat fuel ->
+  Set_contains phys_eq cmp fuel t x = Ok (SetOps1.is_some (find cmp x (sbindings t))).
+Proof. exact (@contains_ok). Qed.
+
+Theorem C18_set_insert : forall (K : Type) (cmp : K -> K -> Z), cmp_order cmp ->
+  forall (phys_eq : forall A : Type, A -> A -> bool), oracle_sound phys_eq ->
+  forall (x : K) (t : Set_t K) (fuel : nat), savl t -> sbst cmp t -> sheight t + 4 <= Z.of_nat fuel ->
+  exists t', Set_insert phys_eq cmp fuel t x = Ok t' /\ savl t' /\ sbindings t' = put cmp x tt (sbindings t)
+             /\ sheight t <= sheight t' <= sheight t + 1.
+Proof. exact (@sinsert_ok). Qed.
+
+Theorem C18_set_join : forall (K : Type) (cmp : K -> K -> Z) (phys_eq : forall A : Type, A -> A -> bool)
+  (v : K) (l r : Set_t K) (fuel : nat), savl l -> savl r -> sheight l + sheight r + 5 <= Z.of_nat fuel ->
+  exists t, Set_join phys_eq cmp fuel l v r = Ok t /\ savl t
+    /\ sbindings t = sbindings l ++ (v, tt) :: sbindings r
+    /\ Z.max (sheight l) (sheight r) <= sheight t <= Z.max (sheight l) (sheight r) + 1 /\ 1 <= sheight t.
+Proof. exact (@sjoin_ok). Qed.
+
+Theorem C18_set_split : forall (K : Type) (cmp : K -> K -> Z), cmp_order cmp ->
+  forall (phys_eq : forall A : Type, A -> A -> bool) (x : K) (t : Set_t K) (fuel : nat),
+  savl t -> sbst cmp t -> 2 * sheight t + 4 <= Z.of_nat fuel ->
+  exists l b r, Set_split phys_eq cmp fuel t x = Ok (Triple_init l b r)
+    /\ savl l /\ savl r /\ sheight l <= sheight t /\ sheight r <= sheight t
+    /\ sbindings l = below cmp x (sbindings t) /\ sbindings r = above cmp x (sbindings t)
+    /\ b = SetOps1.is_some (find cmp x (sbindings t)).
+Proof. exact (@ssplit_ok). Qed.
+
+Theorem C18_set_min : forall (K : Type) (cmp : K -> K -> Z) (phys_eq : forall A : Type, A -> A -> bool)
+  (t : Set_t K) (fuel : nat), savl t -> sheight t + 2 <= Z.of_nat fuel ->
+  Set_min phys_eq cmp fuel t = Ok (of_option (option_map fst (hd_error (sbindings t)))).
+Proof. exact (@smin_ok). Qed.
+
+Theorem C18_set_max : forall (K : Type) (cmp : K -> K -> Z) (phys_eq : forall A : Type, A -> A -> bool)
+  (t : Set_t K) (fuel : nat), savl t -> sheight t + 2 <= Z.of_nat fuel ->
+  Set_max phys_eq cmp fuel t = Ok (of_option (option_map fst (last_opt (sbindings t)))).
+Proof. exact (@smax_ok). Qed.
+
+(* removeMin: "Invalid state for Set.removeMin" is unreachable on a non-empty set *)
+Theorem C18_set_removeMin : forall (K : Type) (cmp : K -> K -> Z) (phys_eq : forall A : Type, A -> A -> bool)
+  (t : Set_t K) (fuel : nat), savl t -> t <> Set_Empty -> sheight t + 4 <= Z.of_nat fuel ->
+  exists t' p, Set_removeMin phys_eq cmp fuel t = Ok t' /\ savl t'
+    /\ sbindings t = p :: sbindings t' /\ sheight t - 1 <= sheight t' <= sheight t.
+Proof. exact (@sremoveMin_ok). Qed.
+
+Theorem C18_set_concat : forall (K : Type) (cmp : K -> K -> Z) (phys_eq : forall A : Type, A -> A -> bool)
+  (t1 t2 : Set_t K) (fuel : nat), savl t1 -> savl t2 -> sheight t1 + sheight t2 + 6 <= Z.of_nat fuel ->
+  exists t, Set_concat phys_eq cmp fuel t1 t2 = Ok t /\ savl t
+    /\ sbindings t = sbindings t1 ++ sbindings t2 /\ sheight t <= Z.max (sheight t1) (sheight t2) + 1.
+Proof. exact (@sconcat_ok). Qed.
+
+Theorem C18_set_remove : forall (K : Type) (cmp : K -> K -> Z), cmp_order cmp ->
+  forall (phys_eq : forall A : Type, A -> A -> bool), oracle_sound phys_eq ->
+  forall (x : K) (t : Set_t K) (fuel : nat), savl t -> sbst cmp t -> sheight t + 7 <= Z.of_nat fuel ->
+  exists t', Set_remove phys_eq cmp fuel t x = Ok t' /\ savl t' /\ sbindings t' = del cmp x (sbindings t)
+             /\ sheight t - 1 <= sheight t' <= sheight t.
+Proof. exact (@sremove_ok). Qed.
+
+Theorem C18_set_filter : forall (K : Type) (cmp : K -> K -> Z) (phys_eq : forall A : Type, A -> A -> bool),
+  oracle_sound phys_eq ->
+  forall (f : K -> res bool) (g : K -> bool), (forall k, f k = Ok (g k)) ->
+  forall (t : Set_t K) (fuel : nat), savl t -> 2 * sheight t + 5 <= Z.of_nat fuel ->
+  exists t', Set_filter phys_eq cmp fuel t f = Ok t' /\ savl t'
+    /\ sbindings t' = afilter (kpred g) (sbindings t) /\ sheight t' <= sheight t.
+Proof. exact (@sfilter_ok). Qed.
+
+Theorem C18_set_partition : forall (K : Type) (cmp : K -> K -> Z) (phys_eq : forall A : Type, A -> A -> bool)
+  (f : K -> res bool) (g : K -> bool), (forall k, f k = Ok (g k)) ->
+  forall (t : Set_t K) (fuel : nat), savl t -> 2 * sheight t + 5 <= Z.of_nat fuel ->
+  exists tt' tf, Set_partition phys_eq cmp fuel t f = Ok (Pair_init tt' tf) /\ savl tt' /\ savl tf
+    /\ sbindings tt' = afilter (kpred g) (sbindings t)
+    /\ sbindings tf = afilter (kpred (fun k => negb (g k))) (sbindings t)
+    /\ sheight tt' <= sheight t /\ sheight tf <= sheight t.
+Proof. exact (@spartition_ok). Qed.
+
+Theorem C18_set_fold : forall (K : Type) (cmp : K -> K -> Z) (phys_eq : forall A : Type, A -> A -> bool)
+  (A : Type) (f : A -> K -> res A) (g : A -> K -> A), (forall a k, f a k = Ok (g a k)) ->
+  forall (t : Set_t K) (acc : A) (fuel : nat), savl t -> sheight t + 1 <= Z.of_nat fuel ->
+  Set_fold phys_eq cmp fuel t acc f = Ok (fold_left g (elements t) acc).
+Proof. exact (@sfold_ok). Qed.
+
+Theorem C18_set_iter : forall (K : Type) (cmp : K -> K -> Z) (phys_eq : forall A : Type, A -> A -> bool)
+  (f : K -> res unit), (forall k, f k = Ok tt) ->
+  forall (t : Set_t K) (fuel : nat), savl t -> sheight t + 1 <= Z.of_nat fuel -> Set_iter phys_eq cmp fuel t f = Ok tt.
+Proof. exact (@siter_ok). Qed.
+
+Theorem C18_set_forAll : forall (K : Type) (cmp : K -> K -> Z) (phys_eq : forall A : Type, A -> A -> bool)
+  (f : K -> res bool) (g : K -> bool), (forall k, f k = Ok (g k)) ->
+  forall (t : Set_t K) (fuel : nat), savl t -> sheight t + 1 <= Z.of_nat fuel ->
+  Set_forAll phys_eq cmp fuel t f = Ok (forallb g (elements t)).
+Proof. exact (@sforAll_ok). Qed.
+
+Theorem C18_set_exists : forall (K : Type) (cmp : K -> K -> Z) (phys_eq : forall A : Type, A -> A -> bool)
+  (f : K -> res bool) (g : K -> bool), (forall k, f k = Ok (g k)) ->
+  forall (t : Set_t K) (fuel : nat), savl t -> sheight t + 1 <= Z.of_nat fuel ->
+  Set_exists phys_eq cmp fuel t f = Ok (existsb g (elements t)).
+Proof. exact (@sexists_ok). Qed.
+
+Theorem C18_set_size : forall (K : Type) (cmp : K -> K -> Z) (phys_eq : forall A : Type, A -> A -> bool)
+  (t : Set_t K) (fuel : nat), savl t -> sheight t + 1 <= Z.of_nat fuel ->
+  Set_size phys_eq cmp fuel t = Ok (Z.of_nat (length (elements t))).
+Proof. exact (@ssize_ok). Qed.
+
+Theorem C18_set_elements : forall (K : Type) (cmp : K -> K -> Z) (phys_eq : forall A : Type, A -> A -> bool)
+  (t : Set_t K) (fuel : nat), savl t -> sheight t + 2 <= Z.of_nat fuel ->
+  Set_elements phys_eq cmp fuel t = Ok (of_list (elements t)).
+Proof. exact (@selements_ok). Qed.
+
+Theorem C18_set_fromList : forall (K : Type) (cmp : K -> K -> Z), cmp_order cmp ->
+  forall (phys_eq : forall A : Type, A -> A -> bool), oracle_sound phys_eq ->
+  forall (l : list K) (fuel : nat), Z.of_nat (length l) + 6 <= Z.of_nat fuel ->
+  exists t, Set_fromList phys_eq cmp fuel (of_list l) = Ok t /\ savl t /\ sbst cmp t
+    /\ sbindings t = sadd_all cmp l [].
+Proof. exact (@sfromList_ok). Qed.
+
+Theorem C18_set_union : forall (K : Type) (cmp : K -> K -> Z), cmp_order cmp ->
+  forall (phys_eq : forall A : Type, A -> A -> bool), oracle_sound phys_eq ->
+  forall (fuel : nat) (t1 t2 : Set_t K), savl t1 -> sbst cmp t1 -> savl t2 -> sbst cmp t2 ->
+  2 * (sheight t1 + sheight t2) + 8 <= Z.of_nat fuel ->
+  exists t, Set_union phys_eq cmp fuel t1 t2 = Ok t /\ savl t /\ sbst cmp t
+    /\ pointwise cmp or_comb (sbindings t1) (sbindings t2) (sbindings t)
+    /\ sheight t <= sheight t1 + sheight t2.
+Proof. exact (@sunion_ok). Qed.
+
+Theorem C18_set_intersection : forall (K : Type) (cmp : K -> K -> Z), cmp_order cmp ->
+  forall (phys_eq : forall A : Type, A -> A -> bool)
+  (fuel : nat) (t1 t2 : Set_t K), savl t1 -> sbst cmp t1 -> savl t2 -> sbst cmp t2 ->
+  2 * (sheight t1 + sheight t2) + 8 <= Z.of_nat fuel ->
+  exists t, Set_intersection phys_eq cmp fuel t1 t2 = Ok t /\ savl t /\ sbst cmp t
+    /\ pointwise cmp and_comb (sbindings t1) (sbindings t2) (sbindings t)
+    /\ sheight t <= sheight t1 + sheight t2.
+Proof. exact (@sinter_ok). Qed.
+
+Theorem C18_set_disjoint : forall (K : Type) (cmp : K -> K -> Z), cmp_order cmp ->
+  forall (phys_eq : forall A : Type, A -> A -> bool)
+  (fuel : nat) (t1 t2 : Set_t K), savl t1 -> sbst cmp t1 -> savl t2 -> sbst cmp t2 ->
+  2 * (sheight t1 + sheight t2) + 9 <= Z.of_nat fuel ->
+  exists b, Set_disjoint phys_eq cmp fuel t1 t2 = Ok b /\
+    (b = true <-> forall k, and_comb k (find cmp k (sbindings t1)) (find cmp k (sbindings t2)) = None).
+Proof. exact (@sdisjoint_ok). Qed.
+
+Theorem C18_set_diff : forall (K : Type) (cmp : K -> K -> Z), cmp_order cmp ->
+  forall (phys_eq : forall A : Type, A -> A -> bool)
+  (fuel : nat) (t1 t2 : Set_t K), savl t1 -> sbst cmp t1 -> savl t2 -> sbst cmp t2 ->
+  2 * (sheight t1 + sheight t2) + 8 <= Z.of_nat fuel ->
+  exists t, Set_diff phys_eq cmp fuel t1 t2 = Ok t /\ savl t /\ sbst cmp t
+    /\ pointwise cmp diff_comb (sbindings t1) (sbindings t2) (sbindings t)
+    /\ sheight t <= sheight t1 + sheight t2.
+Proof. exact (@sdiff_ok). Qed.
+
 (* the specification side: `put` on a sorted association list is finite-map update *)
 Theorem C18_spec_put_sorted : forall (K : Type) (cmp : K -> K -> Z), cmp_order cmp ->
   forall (V : Type) (k : K) (v : V) (l : list (K * V)), sorted cmp l -> sorted cmp (put cmp k v l).
@@ -52,6 +411,30 @@ Theorem C18_spec_find_put : forall (K : Type) (cmp : K -> K -> Z), cmp_order cmp
   forall (V : Type) (k : K) (v : V) (k' : K) (l : list (K * V)),
   find cmp k' (put cmp k v l) = if cmp k' k =? 0 then Some v else find cmp k' l.
 Proof. exact (@find_put). Qed.
+
+Theorem C18_spec_del_sorted : forall (K : Type) (cmp : K -> K -> Z) (V : Type) (k : K) (l : list (K * V)),
+  sorted cmp l -> sorted cmp (del cmp k l).
+Proof. exact (@del_sorted). Qed.
+
+Theorem C18_spec_find_del : forall (K : Type) (cmp : K -> K -> Z), cmp_order cmp ->
+  forall (V : Type) (k k' : K) (l : list (K * V)), sorted cmp l ->
+  find cmp k' (del cmp k l) = if cmp k' k =? 0 then None else find cmp k' l.
+Proof. exact (@find_del). Qed.
+
+Theorem C18_spec_upd_sorted : forall (K : Type) (cmp : K -> K -> Z), cmp_order cmp ->
+  forall (V : Type) (k : K) (g : option V -> option V) (l : list (K * V)), sorted cmp l -> sorted cmp (upd cmp k g l).
+Proof. exact (@upd_sorted). Qed.
+
+Theorem C18_spec_filter_sorted : forall (K : Type) (cmp : K -> K -> Z) (V : Type) (f : K -> V -> bool) (l : list (K * V)),
+  sorted cmp l -> sorted cmp (afilter f l).
+Proof. exact (@afilter_sorted). Qed.
+
+(* a sorted association list is determined by its lookup function: this turns the pointwise
+   statements about union / intersection / difference into statements about the bindings *)
+Theorem C18_spec_find_ext : forall (K : Type) (cmp : K -> K -> Z), cmp_order cmp ->
+  forall (V : Type) (l1 l2 : list (K * V)), sorted cmp l1 -> sorted cmp l2 ->
+  (forall k, find cmp k l1 = find cmp k l2) -> l1 = l2.
+Proof. exact (@find_ext). Qed.
 
 (* ---- non-vacuity: the hypotheses hold of compare = a - b on Z and of a concrete 5-element tree *)
 Lemma Zsub_order : cmp_order Z.sub.
@@ -75,3 +458,60 @@ Print Assumptions C18_map_containsKey.
 Print Assumptions C18_map_insert.
 Print Assumptions C18_spec_put_sorted.
 Print Assumptions C18_spec_find_put.
+Print Assumptions C18_map_addMinBinding.
+Print Assumptions C18_map_addMaxBinding.
+Print Assumptions C18_map_addMinNode.
+Print Assumptions C18_map_addMaxNode.
+Print Assumptions C18_map_join.
+Print Assumptions C18_map_removeMinBinding.
+Print Assumptions C18_map_minBinding.
+Print Assumptions C18_map_concat.
+Print Assumptions C18_map_internalMerge.
+Print Assumptions C18_map_split.
+Print Assumptions C18_map_remove.
+Print Assumptions C18_map_update.
+Print Assumptions C18_map_filter.
+Print Assumptions C18_map_partition.
+Print Assumptions C18_map_fold.
+Print Assumptions C18_map_iter.
+Print Assumptions C18_map_forAll.
+Print Assumptions C18_map_exists.
+Print Assumptions C18_map_size.
+Print Assumptions C18_map_isEmpty.
+Print Assumptions C18_map_entries.
+Print Assumptions C18_map_keys.
+Print Assumptions C18_map_min.
+Print Assumptions C18_map_max.
+Print Assumptions C18_map_minKey.
+Print Assumptions C18_map_maxKey.
+Print Assumptions C18_map_map.
+Print Assumptions C18_map_customizedUnion.
+Print Assumptions C18_map_union.
+Print Assumptions C18_set_balanced.
+Print Assumptions C18_set_contains.
+Print Assumptions C18_set_insert.
+Print Assumptions C18_set_join.
+Print Assumptions C18_set_split.
+Print Assumptions C18_set_min.
+Print Assumptions C18_set_max.
+Print Assumptions C18_set_removeMin.
+Print Assumptions C18_set_concat.
+Print Assumptions C18_set_remove.
+Print Assumptions C18_set_filter.
+Print Assumptions C18_set_partition.
+Print Assumptions C18_set_fold.
+Print Assumptions C18_set_iter.
+Print Assumptions C18_set_forAll.
+Print Assumptions C18_set_exists.
+Print Assumptions C18_set_size.
+Print Assumptions C18_set_elements.
+Print Assumptions C18_set_fromList.
+Print Assumptions C18_set_union.
+Print Assumptions C18_set_intersection.
+Print Assumptions C18_set_disjoint.
+Print Assumptions C18_set_diff.
+Print Assumptions C18_spec_del_sorted.
+Print Assumptions C18_spec_find_del.
+Print Assumptions C18_spec_upd_sorted.
+Print Assumptions C18_spec_filter_sorted.
+Print Assumptions C18_spec_find_ext.
